@@ -844,6 +844,20 @@ static HEARTBEAT: AtomicU64 = AtomicU64::new(0);
 static CUR_STEP: AtomicUsize = AtomicUsize::new(0);
 static FINISHED: AtomicBool = AtomicBool::new(false);
 static CURRENT: std::sync::Mutex<Option<(Config, Vec<Op>)>> = std::sync::Mutex::new(None);
+/// tallies of the SEARCHED line (configs, histories, ops)
+static N_CFG: AtomicU64 = AtomicU64::new(0);
+static N_HIST: AtomicU64 = AtomicU64::new(0);
+static N_OPS: AtomicU64 = AtomicU64::new(0);
+static SEARCHING: AtomicBool = AtomicBool::new(false);
+
+fn searched_line() -> String {
+    format!(
+        "SEARCHED configs={} histories={} ops={}",
+        N_CFG.load(Ordering::Relaxed),
+        N_HIST.load(Ordering::Relaxed),
+        N_OPS.load(Ordering::Relaxed)
+    )
+}
 
 fn value_for(step: usize, size: usize) -> String {
     let mut s = String::with_capacity(size);
@@ -1003,6 +1017,13 @@ pub fn start_watchdog(out: Option<String>) {
                 }
                 let what = format!("{}: operation did not return within 10 s (hang)", upto.last().map(|o| o.line()).unwrap_or_default());
                 println!("{}", witness_line(&cfg, &Violation { prop: "C16", step, what }));
+                if SEARCHING.load(Ordering::Relaxed) {
+                    if let Some(p) = &out {
+                        println!("HISTORY {p}");
+                    }
+                    N_OPS.fetch_add(step as u64, Ordering::Relaxed);
+                    println!("{}", searched_line());
+                }
                 std::process::exit(1);
             }
             eprintln!("harness error: no progress for 10 s outside an operation");
@@ -1130,10 +1151,15 @@ fn run_config(eng: &dyn Engine, cfg: &Config, seed: u64, iters: usize, max_ops: 
     for _ in 0..iters {
         let ops = gen_ops(&mut rng, cfg, max_ops);
         res.histories += 1;
+        N_HIST.fetch_add(1, Ordering::Relaxed);
         match run_history_settled(eng, cfg, &ops)? {
-            None => res.ops += ops.len() as u64,
+            None => {
+                res.ops += ops.len() as u64;
+                N_OPS.fetch_add(ops.len() as u64, Ordering::Relaxed);
+            }
             Some(v) => {
                 res.ops += v.step as u64;
+                N_OPS.fetch_add(v.step as u64, Ordering::Relaxed);
                 let upto = ops[..v.step].to_vec();
                 res.found = Some(Found { ops: upto, v });
                 return Ok(res);
@@ -1227,12 +1253,12 @@ pub fn main_search(args: &[String]) -> i32 {
         i += 2;
     }
 
+    SEARCHING.store(true, Ordering::Relaxed);
     start_watchdog(Some(out.clone()));
     let started = Instant::now();
-    let (mut n_cfg, mut n_hist, mut n_ops) = (0u64, 0u64, 0u64);
     let mut rc = 0;
     for cfg in configs(&flavours, &policies, &mem, &ttl, selftest) {
-        n_cfg += 1;
+        N_CFG.fetch_add(1, Ordering::Relaxed);
         let c = cfg.clone();
         let r = on_engine(&cfg, move |eng| run_config(eng, &c, seed, iters, max_ops)).and_then(|r| r);
         match r {
@@ -1242,8 +1268,6 @@ pub fn main_search(args: &[String]) -> i32 {
                 break;
             }
             Ok(res) => {
-                n_hist += res.histories;
-                n_ops += res.ops;
                 if let Some(found) = res.found {
                     if let Err(e) = write_history(&out, &cfg, &found.ops) {
                         eprintln!("harness error: {e}");
@@ -1259,7 +1283,7 @@ pub fn main_search(args: &[String]) -> i32 {
         }
     }
     FINISHED.store(true, Ordering::Relaxed);
-    println!("SEARCHED configs={n_cfg} histories={n_hist} ops={n_ops}");
+    println!("{}", searched_line());
     eprintln!("bounded search (not a proof): seed={seed} iters={iters} max-ops={max_ops} elapsed={:.1}s", started.elapsed().as_secs_f64());
     rc
 }
